@@ -33,7 +33,8 @@ def extra_rounds(ctx, mod, seed):
     # budget: three more times what the first round took (at least a minute), never beyond BOOST_WALL in total
     limit = min(BOOST_WALL[ctx.tier], time.time() - ctx.t0 + max(3 * first, 60.0))
     k = 0
-    while not ctx.violations and not ctx.disagreements and time.time() - ctx.t0 + first < limit and k < 12:
+    # (violations explained by an OPEN known finding do not count: ctx._fresh = failing inputs no open finding explains)
+    while not getattr(ctx, "_fresh", 0) and not ctx.disagreements and time.time() - ctx.t0 + first < limit and k < 12:
         k += 1
         ctx.reseed(seed + 7919 * k)
         mod.run(ctx)
